@@ -10,6 +10,7 @@ mod ops_box;
 mod ops_boxobj;
 mod ops_curve;
 mod ops_hash;
+mod ops_pwhash;
 mod ops_stream;
 mod util;
 
@@ -26,6 +27,9 @@ fn dispatch(op: &str, args: &[&str]) -> Ans {
         return a;
     }
     if let Some(a) = ops_curve::dispatch(op, args) {
+        return a;
+    }
+    if let Some(a) = ops_pwhash::dispatch(op, args) {
         return a;
     }
     if let Some(a) = ops_stream::dispatch(op, args) {
